@@ -1,5 +1,6 @@
 (* Scratch: C06 — the tree the parser returns lays over the token sequence as a derivation *)
 Require Import Parser ParserShape.
+Require Export Build.
 From Coq Require Import List String ZArith Bool Lia Arith.
 Import ListNotations.
 Close Scope string_scope.
@@ -14,23 +15,7 @@ Arguments drop : simpl never.
 Section L.
 Variable o : oracle.
 Variable df : string.
-
-Definition term_tok (t : token) : bool := match typ t with TLiteral | TQuoted | TRegexp => true | _ => false end.
-
-(* pure views of what the constructors build *)
-Definition scw (e : expr) : expr :=
-  if String.eqb df "" then e
-  else if is_leaf_op (e_op e)
-       then empty_e (VExp (lit (VCol df))) (if should_use_like (VExp e) then Like else Equals) (VExp e)
-       else e.
-Definition eqx (f v : expr) : expr := empty_e (VExp (colwrap f)) (if should_use_like (VExp v) then Like else Equals) (VExp v).
-Definition cmpx (op : operator) (f v : expr) : expr := empty_e (VExp (colwrap f)) op (VExp v).
-Definition rangex (f a b : expr) (incl : bool) : expr := empty_e (VExp (colwrap f)) Range (VBound (VExp a) (VExp b) incl).
-Definition inx (f : expr) (lits : list expr) : expr := empty_e (VExp (colwrap f)) Tables.In (VExp (empty_e (VList lits) Tables.List VNil)).
-Definition mk2 (op : operator) (l r : expr) : expr := empty_e (VExp l) op (VExp r).
-Definition mk1 (op : operator) (l : expr) : expr := empty_e (VExp l) op VNil.
-Definition mk_fuzzy (l : expr) (d : Z) : expr := E (VExp l) Fuzzy VNil one_bits d.
-Definition mk_boost (l : expr) (f : Z) : expr := E (VExp l) Boost VNil f 1%Z.
+Notation scw := (Build.scw df).
 
 Lemma wrap_literal_scw e : wrap_literal e df = Ret (scw e).
 Proof.
